@@ -354,6 +354,8 @@ class Interp:
                 return not self.truth(v)
             if isinstance(e.op, ast.USub) and isinstance(v, int):
                 return -v
+            if isinstance(e.op, ast.UAdd) and isinstance(v, int):
+                return v
             raise Unknown('unary operator')
         if isinstance(e, ast.BinOp):
             return self.binop(e.op, self.ev(e.left, env, mod, func, depth), self.ev(e.right, env, mod, func, depth))
@@ -538,6 +540,10 @@ class Interp:
                 return tuple(args[0])
             if n in ('max', 'min') and args and all(isinstance(a, int) for a in args):
                 return max(args) if n == 'max' else min(args)
+            if n == 'sum' and len(args) >= 1 and isinstance(args[0], (list, tuple, range)) and all(isinstance(a, int) for a in args[0]):
+                return sum(args[0], *args[1:])
+            if n == 'abs' and len(args) == 1 and isinstance(args[0], int):
+                return abs(args[0])
             if n == 'type':
                 return Sym('type')
         if isinstance(fn, ast.Attribute):
